@@ -367,10 +367,11 @@ def enc_sib(progs):
 
             def branch(n):
                 """'small' / 'large' / None according to the isSmall() guard of n."""
+                from .shape import unwrap_cond as _uw
                 for cond, truth in P.guards(n):
-                    c = A.strip(cond)
+                    c, neg = _uw(cond)
                     if isinstance(c, dict) and c.get('k') == 'call' and A.callee(c) == SVB + '::isSmall':
-                        return 'small' if truth else 'large'
+                        return 'small' if (truth != neg) else 'large'
                 return None
             if not any(branch(st) for st, w in stores):
                 probs.append(('shape', 'the stores are not under an isSmall() test', f))
